@@ -119,12 +119,14 @@ prop(
         "iterators::OffsetsBase::{next, next_back, step_by, fold, split_at, truncate, offset_from_linear_index, step_outer_pos}",
         "iterators::Offsets::{new (Range fast path), next, nth, next_back, split_at}",
         "iterators::{Lane, LaneMut}::{next, next_back, nth, len}",
+        "iterators::{AxisIter, AxisIterMut}::{next, next_back, nth, len, size_hint, split_at} over [3,2] / [4,2] / [3,4] tensors",
     ],
     bounds=("merged dims [outer, inner0, inner1] from a concrete size family (each 1..3, one thorough case with 4; plus a "
             "zero-sized dim), total <= 18 elements; strides symbolic < 2^20 each; consumption histories: one symbolic "
             "front/back choice per step for the whole length; 3-4 nth() calls with fully symbolic arguments mixed with "
             "next_back(); split_at at a symbolic point after a symbolic number of front steps, both halves consumed "
-            "from symbolic ends; fold over a symbolic remainder/truncation; lanes of 4 elements, stride <= 5"),
+            "from symbolic ends; fold over a symbolic remainder/truncation; lanes of 4 elements, stride <= 5; axis iterators: up to two symbolic "
+            "front/back steps, then split_at at a symbolic point or nth with symbolic n <= 5 followed by len/size_hint/next"),
     outside=("more than one outer dim (step_outer_pos loop over >1 outer position), sizes > 4, OffsetsBase::new's use "
              "of merge_axes (C09 has the merge_axes harness), InnerIter/AxisIter/AxisChunks view construction, the rayon "
              "bridge itself (ParIter only calls split_at and sequential consumption: assumed)"),
